@@ -21,6 +21,8 @@
 
 from __future__ import unicode_literals
 
+from pybtex.errors import report_error
+from pybtex.exceptions import PybtexError
 from pybtex.style import FormattedEntry, FormattedBibliography
 from pybtex.style.template import node, join
 from pybtex.richtext import Symbol
@@ -84,7 +86,12 @@ class BaseStyle(Plugin):
         if citations is None:
             citations = list(bib_data.entries.keys())
         citations = bib_data.add_extra_citations(citations, self.min_crossrefs)
-        entries = [bib_data.entries[key] for key in citations]
+        entries = []
+        for key in citations:
+            try:
+                entries.append(bib_data.entries[key])
+            except KeyError:
+                report_error(PybtexError('missing database entry for "{0}"'.format(key)))
         formatted_entries = self.format_entries(entries, bib_data=bib_data)
         formatted_bibliography = FormattedBibliography(formatted_entries, style=self, preamble=bib_data.preamble)
         return formatted_bibliography
